@@ -174,10 +174,13 @@ def conv_roundtrip(col, rng, tmpdir, tag):
     c = ConvolvedFluxes()
     c.central_wavelength = rng.choice([0.55, 3.6, 70.0]) * u.micron
     c.model_names = np.array(['m%03d' % (nm - i) for i in range(nm)], dtype='U30')
-    c.apertures = None if na == 0 else np.array([7.0 * (i + 1) for i in range(na)]) * u.au
+    # apertures, fluxes and errors each in a unit of their own (the values below are exactly representable in all of them)
+    apu = rng.choice([u.au, u.au, u.pc, u.kpc])
+    fu, eu = rng.choice([(u.mJy, u.mJy), (u.mJy, u.Jy), (u.Jy, u.mJy)])
+    c.apertures = None if na == 0 else np.array([7.0 * (i + 1) for i in range(na)]) * apu
     n2 = max(na, 1)
-    c.flux = np.array([[val(m, a, 0) for a in range(n2)] for m in range(nm)]) * u.mJy
-    c.error = np.array([[unc(m, a, 0) for a in range(n2)] for m in range(nm)]) * u.mJy
+    c.flux = np.array([[val(m, a, 0) for a in range(n2)] for m in range(nm)]) * fu
+    c.error = np.array([[unc(m, a, 0) for a in range(n2)] for m in range(nm)]) * eu
     p = os.path.join(tmpdir, 'conv_%s.fits' % tag)
     try:
         c.write(p)
@@ -186,9 +189,9 @@ def conv_roundtrip(col, rng, tmpdir, tag):
         col.violation('C12:conv_raised:%s' % type(e).__name__, 'ConvolvedFluxes write/read raised %r' % (e,), {'nm': nm, 'na': na})
         return
     col.replayed += 1
-    ok = ([str(x).strip() for x in r.model_names] == list(c.model_names) and np.array_equal(r.flux.to(u.mJy).value, c.flux.value)
-          and np.array_equal(r.error.to(u.mJy).value, c.error.value) and abs(r.central_wavelength.to(u.micron).value - c.central_wavelength.value) < 1e-12
-          and ((r.apertures is None) == (c.apertures is None)) and (c.apertures is None or np.array_equal(r.apertures.to(u.au).value, c.apertures.value)))
+    ok = ([str(x).strip() for x in r.model_names] == list(c.model_names) and np.array_equal(r.flux.to(fu).value, c.flux.value)
+          and np.array_equal(r.error.to(eu).value, c.error.value) and abs(r.central_wavelength.to(u.micron).value - c.central_wavelength.value) < 1e-12
+          and ((r.apertures is None) == (c.apertures is None)) and (c.apertures is None or np.array_equal(r.apertures.to(apu).value, c.apertures.value)))
     if not ok:
         col.violation('C12:conv_roundtrip', 'convolved-flux table changed by write/read', {'nm': nm, 'na': na, 'names': list(map(str, r.model_names))})
 
